@@ -105,16 +105,25 @@ def spec_judge(acts, text):
     return "ok"
 
 
-def model_acts(acts):
-    """the model's action list: an operation on a stream the device has half-closed raises, like the half-close itself"""
-    conn = dead = False; out = []
+def model_acts(acts, type2=False):
+    """the model's action list, mirroring what `act` really does.  An operation is sent only while connected to a listening
+    device (otherwise the harness simulates its outcome).  On a stream the device has half-closed every read returns end-of-stream
+    at once: a state query raises, and so does every type-2 operation (they check the login reply); a type-1 command returns an
+    unsuccessful response"""
+    conn = dead = listening = False; out = []
     for k, f in acts:
-        if k == 0 and f: conn, dead = True, False
+        if k == 0:
+            listening = bool(f)
+            if f: conn, dead = True, False
         elif k == 1: conn = False
-        elif 3 <= k <= 7 and f: conn = False
+        elif 3 <= k <= 7:
+            listening = bool(f)
+            if f: conn = False
         if k == 2:
-            if f == 2 and conn: dead = True
-            out.append([2, 1 if (f or (conn and dead)) else 0])
+            if conn and listening:
+                if f == 2: dead = True
+                out.append([2, 1 if (f or (dead and type2)) else 0])
+            else: out.append([2, 1 if f else 0])
         else: out.append([k, f])
     return out
 
@@ -129,7 +138,7 @@ def run_sequences(out, stream, cls, seqs):
         await dev.listen(False)
         return res
     io = asyncio.run(go())
-    mo = lib.run_model([lib.req("client", [a for a in model_acts(s) if a[0] != 8]) for s in seqs])
+    mo = lib.run_model([lib.req("client", [a for a in model_acts(s, cls is SwitcherType2Api) if a[0] != 8]) for s in seqs])
     for j, s_ in enumerate(seqs):           # the model has no clock: a jump of the wall clock repeats the previous observation
         if any(k == 8 for k, _ in s_):
             it = iter(mo[j].split("|")[:-1]); outl = []; prev = "c0,0."
@@ -157,6 +166,7 @@ def run(tier, rnd, out):
     seqs = [list(s) for L in ((1, 2, 3) if tier == "quick" else (1, 2, 3, 4)) for s in itertools.product(alphabet, repeat=L)]
     seqs += [[rnd.choice(alphabet) for _ in range(rnd.randrange(4, 9))] for _ in range(60 if tier == "quick" else 1500)]
     seqs += [[a, b] for a in wide for b in wide] + [[rnd.choice(wide) for _ in range(rnd.randrange(3, 7))] for _ in range(60 if tier == "quick" else 1500)]
+    seqs += [[(0, 1), (2, 2), a, b] for a in wide for b in alphabet[:5]]           # what follows a half-closed login, with and without a reconnect
     for cls in (SwitcherType1Api, SwitcherType2Api): run_sequences(out, "sequences", cls, seqs)
     out.exhaustive = True
     out.notes.append("exhaustive over all action sequences up to length %d for both classes" % (3 if tier == "quick" else 4))
